@@ -13,7 +13,7 @@ Two parts:
 
 The ffi engine lives in another test binary than the other engines, so this module carries its own
 build-and-run code and installs it in place of propcheck.run_cases for this property only."""
-import hashlib, json, os, shutil, subprocess, urllib.parse
+import hashlib, json, os, shutil, struct, subprocess, urllib.parse
 import propcheck
 from propcheck import *
 
@@ -321,6 +321,7 @@ class C20(Prop):
         idxs = [0, 1, 2, 7, 65535]
         ops = []
         live = []
+        last = {}     # (type, index) -> (last numeric value written, its flags)
 
         def add(ty, idx):
             sv, ev, has_db = TYPES[ty]
@@ -348,10 +349,31 @@ class C20(Prop):
                 if ty == "os":
                     n = rng.choice([0, 1, 2, 3, 255, 256]) if rng.chance(1, 4) else rng.range(1, 12)
                     ops.append([name, ty, idx, hexs(rng.bytes(n))] + self.gen_opts(rng))
+                elif ty in ("ai", "aos", "ctr", "fctr") and (ty, idx) in last and rng.chance(1, 2):
+                    # stay close to the previous value with unchanged flags: only the dead band of the
+                    # point configuration decides whether an event is produced
+                    v0, f0 = last[(ty, idx)]
+                    delta = rng.choice([0, 1, 4, 5, 6, 999, 1000, 1001]) * rng.choice([1, -1])
+                    if ty in ("ai", "aos"):
+                        v1 = v0 + delta + rng.choice([0.0, 0.5])
+                        tok = "%016x" % struct.unpack("<Q", struct.pack("<d", v1))[0]
+                    else:
+                        v1 = min(max(v0 + delta, 0), 4294967295)
+                        tok = str(v1)
+                    last[(ty, idx)] = (v1, f0)
+                    ops.append([name, ty, idx, tok, f0] + self.gen_time(rng) + ["1", "detect"])
                 else:
-                    ops.append([name, ty, idx, self.gen_update_args(rng, ty),
-                                rng.choice(FLAGS_POOL) if rng.chance(3, 4) else rng.below(256)]
-                               + self.gen_time(rng) + self.gen_opts(rng))
+                    tok = self.gen_update_args(rng, ty)
+                    fl = rng.choice(FLAGS_POOL) if rng.chance(3, 4) else rng.below(256)
+                    if ty in ("ai", "aos"):
+                        fv = struct.unpack("<d", struct.pack("<Q", int(tok, 16)))[0]
+                        if fv == fv and abs(fv) < 1e12:
+                            last[(ty, idx)] = (fv, fl)
+                        else:
+                            last.pop((ty, idx), None)
+                    elif ty in ("ctr", "fctr"):
+                        last[(ty, idx)] = (int(tok), fl)
+                    ops.append([name, ty, idx, tok, fl] + self.gen_time(rng) + self.gen_opts(rng))
             elif r < 78 and ty != "os":
                 ops.append(["flg", ty, idx, rng.choice(FLAGS_POOL)] + self.gen_time(rng) + self.gen_opts(rng))
             elif r < 94:
@@ -380,6 +402,12 @@ class C20(Prop):
         return out
 
     def cases(self, rng, tier):
+        # replays of an earlier run would otherwise be mistaken for results of this one
+        d = os.path.join(VERIF, "replays", self.id)
+        if os.path.isdir(d):
+            for f in os.listdir(d):
+                if f.startswith("violation_") or f == "unexplained.json":
+                    os.remove(os.path.join(d, f))
         n = 240 if tier == "quick" else 4000
         db = [self.gen_script(rng, "c20_db_%d" % i) for i in range(n)]
         return db[:2] + self.table_cases() + db[2:]
@@ -413,7 +441,7 @@ class C20(Prop):
                 break
             if f[4:] != n[7:]:
                 t = f.split(" ")
-                fails.append(("ffi-native-differ|%s|%s" % (t[1], t[2]),
+                fails.append(("ffi-native-differ|%s" % t[1],
                               "operation #%d `%s`: through the binding `%s`, natively `%s`"
                               % (i // 2, case.script.split("\n")[1 + i // 2], f[4:], n[7:])))
                 break
